@@ -12,7 +12,7 @@ from fractions import Fraction
 from harness import lib, numgen
 from harness.lib import q
 from harness.numgen import HEADER
-from harness.props import c02, c02_translate, c04_types
+from harness.props import c02, c02_translate, c04_types, c04_cross
 
 TOL = Fraction(1, 10 ** 9)
 
@@ -179,7 +179,13 @@ def run(ctx):
                 'frozen population; _inject_mutations_2D..5D with every flag value combination in every type; numeric arguments (nu, gamma, h, m incl. zero, theta0, beta, T, initial_t) as '
                 'int / numpy.int64 / numpy.int32 / numpy.float64 / 0-d arrays, all at once and one class at a time; grid as list / tuple / float32 / longdouble / object / masked array, '
                 'density as masked array / ndarray subclass (integrators, remove_pop, filter_pops): the C04 predicates on the variant and the same result as the canonical call; '
-                'when the source obligation of an _inject_mutations_dD fails: every flag (value, type) assignment for that dimension and every frozen subset x type through the driver')
+                'when the source obligation of an _inject_mutations_dD fails: every flag (value, type) assignment for that dimension and every frozen subset x type through the driver; '
+                'feature interactions (c04_cross.py, enumerated on every run): every flag assignment (d=1 frozen; d=2 all 16 of frozen1/nomut1/frozen2/nomut2; d=3..5 all 2^d frozen subsets) x '
+                'every driver (constants; every parameter a function of time, constant-valued and with nu/theta0 varying; only ONE class nu / m / gamma / h / theta0 a function; only ONE keyword a function) '
+                'with the predicates on the real code: empty density stays off the flagged populations (generic and pure-drift run; mass within the influx of the active ones), one-step influx amount and '
+                'place per population (run with theta0 = run without theta0 from the preloaded density), theta0 acts only through active populations / not at all when all are flagged, marginal of every '
+                'population vs stand-alone one_pop (theta0 for active, 0 for nomut, unchanged for frozen); a driver case that disagrees with the Coq model triggers these predicates on fresh inputs of its '
+                '(dimension, driver kind, flags) before no-failing-input-found')
     ctx.assumptions += ['identities evaluated on float64 outputs at 1e-10 relative to the total mass (observed <= 1e-14 on the unchanged tree)',
                         'isolated-subset comparison uses a single time step (the property says "with the same time steps")',
                         'argument types: only types the unchanged library accepts are compared (table and how it was established: harness/props/c04_types.py); a variant marked "maybe" '
@@ -485,6 +491,9 @@ def run(ctx):
             seen_canon.add(id(canon)); cases.append(canon)
         v['_desc'] = desc
         cases.append(v)
+    # ---- (9) feature interactions (harness/props/c04_cross.py): every flag assignment x every driver, d = 1..5, on every run
+    cross = c04_cross.gen(ctx, rng, reps=ctx.pick(1, 2), bigger=not ctx.quick)
+    cases += c04_cross.cases_of(cross)
     for i, c in enumerate(cases):
         c['id'] = i
     res = lib.run_impl('c04_impl.py', [{k: v for k, v in c.items() if not k.startswith('_') and k != 'pop'} | ({'pop': c['pop']} if 'pop' in c else {}) for c in cases], timeout=3000)
@@ -689,6 +698,11 @@ def run(ctx):
              '%s: the result differs from the same call with the values given in the canonical types (rel dev %.3g of max|phi|)' % (desc, dev),
              {'d': d, 'dev': dev, 'frozen': v['_frozen'], 'types': v['_types'], 'case': pub(v), 'canonical_case': pub(canon), 'result': v['_out'], 'canonical_result': canon['_out']},
              sig=('types', v['id']))
+    # (9) feature interactions: the property predicates for every (dimension, flags, driver)
+    ncross_bad = c04_cross.evaluate(ctx, cross, pred)
+    ctx.count('flag x driver entries evaluated', len(cross))
+    if ncross_bad:
+        ctx.count('flag x driver failing predicate evaluations', ncross_bad)
     # targeted search on _inject_mutations_dD: every (value, type) assignment of the flags
     for sc in inject_search:
         if '_out' not in sc:
@@ -769,11 +783,24 @@ def run(ctx):
         return '%d pops, frozen %s, density: %s%s' % (len(eq['shape']), c['_frozen'], lname(c), ('; ' + c['_types'] + ('; nomut %s' % c['_nomut'] if '_nomut' in c else '')) if '_types' in c else '')
     exprs = [(c['id'], c02.coq_dcase(eqcase(c), c['_out'])) for c in sel]
     results = ctx.coq_cases('driver', HEADER, exprs, '(dcheck %s)' % q(TOL), 'rel 1e-09 of max|phi|', shard=ctx.pick(6, 16), timeout=1800)
+    searched = {}
+    next_id = len(cases)
     for c in sel:
         rr = results.get(c['id'])
         ok = rr is not None and rr[0]
         ctx.obligation('frozen-flag driver case %d (%s) = model' % (c['id'], describe(c)), ok, 'correspondence', '' if ok else 'coq result %r' % (rr,))
         if not ok:
+            # targeted search: the property predicates on fresh inputs of this (dimension, driver kind, frozen / nomut flags), every driver
+            # variant of that kind; a failing input found there is the violation, only otherwise no-failing-input-found
+            eq = eqcase(c)
+            gk = (len(eq['shape']), eq.get('as_func'), tuple(i for i, p in enumerate(eq['pops']) if p.get('frozen')),
+                  tuple(i for i, p in enumerate(eq['pops']) if p.get('nomut')))
+            if gk not in searched and len(searched) < 6:
+                nent, nbad = c04_cross.targeted(ctx, ctx.rng, pred, gk[0], gk[1], set(gk[2]), set(gk[3]), next_id)
+                next_id += 20 * nent + 100
+                searched[gk] = nbad
+            if searched.get(gk):
+                continue
             ctx.violation('driver case (%s) differs from the model (coq %r)' % (describe(c), rr),
                           data={'case': {x: y for x, y in c.items() if not x.startswith('_')}, 'layout': lname(c), 'impl': c['_out']}, no_input=True,
                           broken='correspondence of the frozen-flag drivers with the Coq model (Model/SchemeCheck.v dcheck): the mass-balance theorems are no longer shown to apply to this code; the predicates on the implementation found no failing input unless reported separately')
